@@ -747,6 +747,10 @@ class PE:
             return Opaque(norm(e))
         if isinstance(e, ast.Slice):
             return Opaque(norm(e))
+        if isinstance(e, ast.NamedExpr) and isinstance(e.target, ast.Name):
+            v = self.expr(e.value, env, func, depth)
+            env[e.target.id] = v
+            return v
         if isinstance(e, ast.Lambda):
             return Lam(e, env, func)
         if isinstance(e, ast.Starred):
@@ -904,6 +908,8 @@ class PE:
         basic = (int, float, str, bool, Fraction, type(None))
         if isinstance(op, (ast.Is, ast.IsNot)) and hasattr(a, 'pe_id') and hasattr(b, 'pe_id'):
             return (a is b) == isinstance(op, ast.Is)
+        if isinstance(op, (ast.Is, ast.IsNot)) and isinstance(a, (bool, type(None))) and isinstance(b, (bool, type(None))):
+            return (a is b) == isinstance(op, ast.Is)
         if isinstance(op, (ast.Is, ast.IsNot)):
             if b is None or a is None:
                 other = a if b is None else b
@@ -920,6 +926,8 @@ class PE:
                 return None         # the class defines __eq__: membership is decided by it, not by identity
             r = any(x is a or (isinstance(a, basic) and isinstance(x, basic) and x == a) for x in b)
             return r if isinstance(op, ast.In) else not r
+        if isinstance(op, (ast.In, ast.NotIn)) and isinstance(b, (list, tuple, dict)) and len(b) == 0:
+            return isinstance(op, ast.NotIn)
         if isinstance(op, (ast.In, ast.NotIn)):
             if isinstance(b, (list, tuple, dict, str)) and isinstance(a, basic) and all(isinstance(x, basic) for x in (b if not isinstance(b, dict) else b.keys())):
                 r = a in b
